@@ -21,7 +21,7 @@ fn spec(t: Tier) -> Spec {
     Spec {
         id: "C15",
         level: "exploration",
-        rule: format!("(A) for kind in {{a,c,m}} x period in {{60 s, 86400 s}} x k in {:?} x age in {{k*P-1s, k*P-1ns, k*P, k*P+1ns, k*P+1s}} (>=0) x sub-second phase of the timestamp in {:?}: the injected now() is set to (timestamp read back by lstat) + age, the two other timestamps of the file sit in other periods, a second file is one period older; every N in 0..k+2 (and 2^31) x forms N,+N,-N of the matching -Xtime / -Xmin primary is evaluated by the real find; expected = floor(age/P) ==,>,< N. (B) entry/reference pairs built so that entry.X - reference.Y is -1s,-1ns,0,+1ns,+1s for each (X,Y) in {{a,c,m}}^2 (c by ordering real metadata changes and reading back; equality of c via a hard link), at two placements (before/after the status-change times) and {} base phases; on every pair ALL of -newer, -anewer, -cnewer and the nine -newerXY are evaluated; expected = entry.X > reference.Y at nanosecond resolution from lstat() read back. evaluation = (file, primary, operand); non-trivial = age within 1 s of a period boundary (A) / the pair's controlled difference concerns that primary's X,Y (B)", ks(t), phases(t), phases(t).len()),
+        rule: format!("(A) for kind in {{a,c,m}} x period in {{60 s, 86400 s}} x k in {:?} x age in {{k*P-1s, k*P-1ns, k*P, k*P+1ns, k*P+1s}} (>=0) x sub-second phase of the timestamp in {:?}: the injected now() is set to (timestamp read back by lstat) + age, the two other timestamps of the file sit in other periods, a second file is one period older; every N in 0..k+2 (and 2^31) x forms N,+N,-N of the matching -Xtime / -Xmin primary is evaluated by the real find; expected = floor(age/P) ==,>,< N. (B) entry/reference pairs built so that entry.X - reference.Y is -1s,-1ns,0,+1ns,+1s for each (X,Y) in {{a,c,m}}^2 (c by ordering real metadata changes and reading back; equality of c via a hard link), at two placements (before/after the status-change times) and {} base phases; on every pair ALL of -newer, -anewer, -cnewer and the nine -newerXY are evaluated; expected = entry.X > reference.Y at nanosecond resolution from lstat() read back. (C) one run of the find binary against the real clock: an earlier starting point runs `sleep 4`, entries that were 56 s / one day minus 4 s old when find started are visited afterwards and must still count as 0 minutes / 0 days old (now fixed at start). evaluation = (file, primary, operand); non-trivial = age within 1 s of a period boundary (A) / the pair's controlled difference concerns that primary's X,Y (B)", ks(t), phases(t), phases(t).len()),
         bound: json!({"k": ks(t), "periods": [60, 86400], "deltas_ns": [-1_000_000_000i64, -1, 0, 1, 1_000_000_000i64], "xy": "a,c,m squared + -newer -anewer -cnewer"}),
         assumptions: vec![
             "-daystart, -newerXt, -newerB?, negative ages are outside the statement".into(),
@@ -389,14 +389,68 @@ fn part_b(ctx: &mut Ctx) {
     }
 }
 
+// ---------------------------------------------------------------------------------------------
+// Part C: 'now' is fixed when find starts — real clock, find binary, a slow earlier action
+// ---------------------------------------------------------------------------------------------
+
+/// `find s1 s2 ...` where visiting s1/first runs `sleep 4`; the entries of s2 are 56 s / one day
+/// minus 4 s old when find starts and are visited after the sleep: they must still count as
+/// 0 minutes / 0 days old. Inconclusive (no verdict) if the machine stalled for > 2.5 s.
+fn part_c(ctx: &mut Ctx) {
+    let sbx = ctx.sbx.clone();
+    for d in ["s1", "s2"] {
+        let _ = crate::sandbox::force_remove(&sbx.join(d));
+        if std::fs::create_dir(sbx.join(d)).is_err() {
+            return;
+        }
+    }
+    for f in ["s1/first", "s2/m", "s2/d"] {
+        let _ = std::fs::write(sbx.join(f), b"");
+    }
+    let t0 = SystemTime::now();
+    let t0n = t0.duration_since(UNIX_EPOCH).unwrap();
+    let t0_ns = t0n.as_secs() as i128 * NS + t0n.subsec_nanos() as i128;
+    let _ = lb::set_times(&sbx.join("s2/m"), split(t0_ns - 56 * NS), split(t0_ns - 56 * NS));
+    let _ = lb::set_times(&sbx.join("s2/d"), split(t0_ns - (DAY - 4) * NS), split(t0_ns - (DAY - 4) * NS));
+    let argv: Vec<String> = ["s1", "s2", "-sorted", "(", "-path", "s1/first", "-exec", "sleep", "4", ";", ")", ",", "(", "-mmin", "0", "-printf", "M0 %p\\n", ")", ",", "(", "-mmin", "1", "-printf", "M1 %p\\n", ")", ",", "(", "-mtime", "0", "-printf", "D0 %p\\n", ")", ",", "(", "-mtime", "1", "-printf", "D1 %p\\n", ")", ",", "(", "-amin", "-1", "-printf", "A0 %p\\n", ")"].iter().map(|s| s.to_string()).collect();
+    let aos: Vec<&std::ffi::OsStr> = argv.iter().map(std::ffi::OsStr::new).collect();
+    let o = crate::binrun::run(&crate::binrun::repo_bin("find"), &aos, &sbx, &crate::binrun::Opts { timeout_s: 60, ..Default::default() });
+    let elapsed = t0.elapsed().map(|d| d.as_secs_f64()).unwrap_or(99.0);
+    ctx.rep.evaluations += 1;
+    if !(4.0..6.5).contains(&elapsed) || o.code != Some(0) {
+        ctx.rep.count("part_C_inconclusive_runs (machine stalled or sleep unavailable)", 1);
+        return;
+    }
+    ctx.rep.nontrivial += 1;
+    ctx.rep.traces_validated += 1;
+    let out = String::from_utf8_lossy(&o.out).to_string();
+    let has = |l: &str| out.lines().any(|x| x == l);
+    // s2/m: 56 s old at start -> 0 complete minutes; s2/d: one day minus 4 s -> 0 complete days (and 1439 minutes)
+    let ok = has("M0 s2/m") && !has("M1 s2/m") && has("D0 s2/d") && !has("D1 s2/d") && has("A0 s2/m");
+    if !ok {
+        ctx.rep.violation(
+            "C15 'now' is not fixed when find starts: entries visited after a slow action are aged against a later clock",
+            format!("find {:?}\n(s2/m was 56 s old and s2/d one day minus 4 s old when find started; s1/first ran 'sleep 4' before they were visited; elapsed {elapsed:.1} s)\nstdout {:?}", argv, out),
+            json!({"prop":"C15","part":"C"}),
+        );
+    }
+}
+
 fn run(ctx: &mut Ctx) {
     part_a(ctx);
     part_b(ctx);
+    if ctx.shard == 0 {
+        part_c(ctx);
+    }
 }
 
 fn replay(case: &Value, ctx: &mut Ctx) -> Option<String> {
     let sbx = ctx.sbx.clone();
     let before = ctx.rep.violations.len();
+    if case["part"] == "C" {
+        part_c(ctx);
+        return ctx.rep.violations.keys().next().cloned();
+    }
     if case["part"] == "A" {
         let kind = case["kind"].as_str()?.chars().next()?;
         let period = case["period"].as_i64()? as i128;
